@@ -104,7 +104,7 @@ func (x *Exec) checkLoopEnsures(st *State, l *Loop) {
 		return
 	}
 	for i, cl := range x.ct.LoopEns[l.Ordinal] {
-		if len(cl.Props) > 0 && x.prop != "" && !hasProp(cl.Props, x.prop) {
+		if cl.inactive(x.prop) {
 			continue
 		}
 		x.curLoop = l
@@ -428,6 +428,8 @@ func (x *Exec) step(st *State, in ssa.Instruction) bool {
 		r := x.newRef(st, "chan")
 		theU.DeclFunc("isext", SBool, SInt)
 		st.add(Not(App("isext", SBool, r))) // made by the module, not handed in from outside
+		theU.DeclFunc("chcap", SInt, SInt)
+		st.add(Eq(App("chcap", SInt, r), x.term(st, x.val(st, i.Size), i.Size.Type()))) // buffer size
 		st.heap[ghClosed] = Store(st.heapArr(ghClosed, heapSorts[ghClosed]), r, False)
 		st.heap[ghSent] = Store(st.heapArr(ghSent, heapSorts[ghSent]), r, Zero)
 		st.heap[ghRecvd] = Store(st.heapArr(ghRecvd, heapSorts[ghRecvd]), r, Zero)
@@ -448,6 +450,9 @@ func (x *Exec) step(st *State, in ssa.Instruction) bool {
 			st.clos = map[string]Val{}
 		}
 		st.clos[r.Key()] = st.regs[i]
+		if x.full && closureEscapes(i) {
+			x.checkCapture(st, i, fn, binds)
+		}
 	case *ssa.ChangeType:
 		st.regs[i] = x.val(st, i.X)
 	case *ssa.ChangeInterface:
@@ -1475,4 +1480,91 @@ func (x *Exec) doTypeAssert(st *State, ta *ssa.TypeAssert) {
 	}
 	x.oblige(st, "ta", fmt.Sprintf("#%d", x.ordinal("ta", ta)), ok, ta.Pos(), "type assertion to "+types.TypeString(ta.AssertedType, nil)+" holds")
 	st.regs[ta] = Val{T: res}
+}
+
+
+// closureEscapes: the closure value leaves the function that makes it (returned, stored in
+// the heap, sent, converted, handed to another function) instead of being only called or
+// spawned right here - then nobody else proves its preconditions about captured variables.
+func closureEscapes(mc *ssa.MakeClosure) bool {
+	if mc.Referrers() == nil {
+		return false
+	}
+	var esc func(v ssa.Value, depth int) bool
+	esc = func(v ssa.Value, depth int) bool {
+		refs := v.Referrers()
+		if refs == nil || depth > 3 {
+			return false
+		}
+		for _, ref := range *refs {
+			switch r := ref.(type) {
+			case *ssa.Return, *ssa.Send, *ssa.MakeInterface:
+				return true
+			case *ssa.ChangeType:
+				if esc(r, depth+1) {
+					return true
+				}
+			case *ssa.Store:
+				if r.Val != v {
+					continue
+				}
+				if a, ok := r.Addr.(*ssa.Alloc); ok && !a.Heap {
+					// a local: look at what is done with its loads
+					if a.Referrers() != nil {
+						for _, ar := range *a.Referrers() {
+							if u, ok := ar.(*ssa.UnOp); ok && esc(u, depth+1) {
+								return true
+							}
+						}
+					}
+					continue
+				}
+				return true
+			case ssa.CallInstruction:
+				if r.Common().Value == v {
+					continue // called or spawned here
+				}
+				return true // passed as an argument
+			case *ssa.Select:
+				return true
+			}
+		}
+		return false
+	}
+	return esc(mc, 0)
+}
+
+// checkCapture: the conjuncts of an escaping closure's preconditions that speak only about
+// captured variables must hold where the closure is made.
+func (x *Exec) checkCapture(st *State, mc *ssa.MakeClosure, callee *ssa.Function, binds []Val) {
+	ct := x.P.Contracts[callee]
+	if ct == nil || ct.Trusted {
+		return
+	}
+	params := map[string]bool{}
+	for _, p := range callee.Params {
+		params[p.Name()] = true
+	}
+	free := map[string]bool{}
+	for _, fv := range callee.FreeVars {
+		free[fv.Name()] = true
+	}
+	n := 0
+	for _, rq := range ct.Requires {
+		for _, cj := range splitConj(rq.Expr) {
+			if mentionsAny(cj, params) || !mentionsAny(cj, free) {
+				continue
+			}
+			n++
+			env := x.callEnv(st, st, callee, nil, nil, nil)
+			x.bindFreeVars(st, env, callee, binds, env.binds)
+			t := env.eval(cj)
+			if env.err != nil {
+				x.specError(cj, env.err)
+				continue
+			}
+			x.oblige(st, "capture", fmt.Sprintf("#%d:%s:%d", x.ordinal("capture", mc), relName(callee), n), t.T, mc.Pos(),
+				"what "+relName(callee)+" requires of its captured variables holds where the closure is made: "+cj.String())
+		}
+	}
 }
